@@ -432,6 +432,42 @@ Definition run_case (tb : tables) (c : coll) (ops : list op) : list entry * list
 (** * The generated table *)
 Definition gen_tables : tables := tables_of Gen_forwarding.gen_rows Gen_forwarding.gen_defaults.
 
+(** * Callbacks made while the calling thread is unwinding
+
+    Every callback of `reload::Subscriber` goes through the crate's `try_lock!`.  With the branch order of the source
+    ([LockFirst]: the lock result first, `std::thread::panicking()` only for a poisoned lock) a healthy lock is taken whether
+    or not the thread is unwinding, so nothing changes.  With `panicking()` consulted first ([PanickingFirst]) every such
+    callback made during unwinding is skipped and its fallback literal returned: the rows of the two reload impls then
+    behave like [Const d].  Which one the source has is read by the translator ([gen_order]). *)
+Inductive tlorder := LockFirst | PanickingFirst | UnknownOrder.
+Definition decode_order (s : string) : tlorder :=
+  if String.eqb s "lock_first" then LockFirst else if String.eqb s "panicking_first" then PanickingFirst else UnknownOrder.
+Definition gen_order : tlorder := decode_order Gen_forwarding.gen_try_lock_order.
+
+Definition unwind_cls (w : wrapper) (m : meth) (c : cls) : cls :=
+  match w with
+  | WReloadS | WReloadF =>
+      match c with
+      | FwdLock d => if meth_eqb m on_subscribe then c else Const d
+      | Downcast DcReload => Downcast DcSelf
+      | _ => c
+      end
+  | _ => c
+  end.
+Definition unwind_tables (o : tlorder) (tb : tables) : tables :=
+  match o with
+  | LockFirst => tb
+  | _ => mkTables (fun w m => unwind_cls w m (lk tb w m)) (dk tb)
+  end.
+
+(** A workload whose ops from index [k] on run inside a Drop impl while a panic propagates (caught at the top). *)
+Definition run_case_u (tb : tables) (o : tlorder) (c : coll) (ops : list op) (k : nat) : list entry * list entry * list out :=
+  let ob := coll_obj tb c in
+  let tu := unwind_tables o tb in
+  let ou := coll_obj tu c in
+  (build_log tb c, fst (dispatch_sem tb (call ob) on_register_dispatch arg0),
+   map (run_op tb ob) (firstn k ops) ++ map (run_op tu ou) (skipn k ops)).
+
 (** Names in the generated file this model does not know (a method added to a trait, a new implementor). *)
 Definition undecoded : list string :=
   flat_map (fun tm => match tm with (t, ms) =>
